@@ -44,8 +44,8 @@ ASSUMPTIONS = [
   'refusal = ValueError raised or None returned (Combiner documents both); the statement does not distinguish them',
 ]
 TECHNIQUE = 'Hypothesis tree generator + independent provenance model + per-tree exhaustive probe ranges'
-BUDGET = {'quick': dict(examples=40000, shards=8, max_seconds=60),
-          'thorough': dict(examples=720000, shards=16, max_seconds=600)}
+BUDGET = {'quick': dict(examples=12000, shards=8, max_seconds=60),
+          'thorough': dict(examples=300000, shards=16, max_seconds=600)}
 EXH = 14          # exhaustive (start,end) probing when the output text is at most this long
 
 # (regexp, flags) table for make_regexp_patches-derived Replacers (shapes used by codebuilder:
